@@ -246,3 +246,70 @@ CtxSub2 = _node_type('CtxSub2', max_parallel=2, extra_ns={'filter_context': _ctx
 NODE_TYPES = {c.__name__: c for c in (N1, N2, N3, NN, N, NX, Z, Z1, J, P2, T, CtxSub, CtxSub2)}
 CACHEABLE = {k for k, c in NODE_TYPES.items() if not isinstance(c._lt.cache, labtech.cache.NullCache)}
 MAX_PARALLEL = {k: c._lt.max_parallel for k, c in NODE_TYPES.items()}
+
+
+# ---------------------------------------------------------------------------------------------------
+# parameter carriers, enums, post_init type (C07, C09, C15)
+# ---------------------------------------------------------------------------------------------------
+
+class Color(enum.Enum):
+    RED = 1
+    GREEN = 2
+    BLUE = 'blue'
+    CRIMSON = 1        # alias of RED
+
+
+class Num(enum.IntEnum):
+    ONE = 1
+    TWO = 2
+    ZERO = 0
+
+
+class Sx(enum.StrEnum):
+    A = 'a'
+    RED = 'RED'
+    EMPTY = ''
+
+
+class Other(enum.Enum):
+    RED = 1            # same member name and value as Color.RED, different enum type
+    GREEN = 'x'
+
+
+ENUMS = {'Color': Color, 'Num': Num, 'Sx': Sx, 'Other': Other}
+
+
+def _pv_run(self):
+    trace(f'S {type(self).__name__}:{self.cache_key} {os.getpid()}')
+    return ('pv', type(self).__name__, repr(self))
+
+
+def _param_type(tname: str, fields: dict, defaults: dict = None, **kw):
+    ns = {'__annotations__': dict(fields), 'run': _pv_run, '__module__': MODULE, '__qualname__': tname}
+    ns.update(defaults or {})
+    ns.update(kw.pop('extra_ns', {}))
+    return labtech.task(**kw)(type(tname, (), ns))
+
+
+PV = _param_type('PV', {'v': Any})
+PW = _param_type('PW', {'v': Any})                       # same shape, different type
+M3 = _param_type('M3', {'a': Any, 'b': Any, 'c': Any}, {'c': None})
+ZV = _param_type('ZV', {'v': Any}, cache=None)
+JV = _param_type('JV', {'v': Any}, cache=JCache())
+P2V = _param_type('P2V', {'v': Any}, cache=P2Cache())
+NV = _param_type('NV', {'v': Any})                       # 'NV' is a prefix of 'NVX'
+NVX = _param_type('NVX', {'v': Any})
+TV = _param_type('TV', {'v': Any})                       # twin of vu2.TV (same qualname, other module)
+
+
+def _pi_post_init(self):
+    object.__setattr__(self, 'derived', ('derived', repr(self.v)))
+
+
+def _pi_run(self):
+    return ('pi', self.derived)
+
+
+PI = _param_type('PI', {'v': Any}, extra_ns={'post_init': _pi_post_init, 'run': _pi_run})
+
+PARAM_TYPES = {c.__name__: c for c in (PV, PW, M3, ZV, JV, P2V, NV, NVX, TV, PI)}
